@@ -112,8 +112,11 @@ func intInfo(t types.Type) (bits int, signed bool, ok bool) {
 	return 0, false, false
 }
 
-func isInt(t types.Type) bool   { _, _, ok := intInfo(t); return ok }
-func isFloat(t types.Type) bool { b, ok := t.Underlying().(*types.Basic); return ok && b.Info()&types.IsFloat != 0 }
+func isInt(t types.Type) bool { _, _, ok := intInfo(t); return ok }
+func isFloat(t types.Type) bool {
+	b, ok := t.Underlying().(*types.Basic)
+	return ok && b.Info()&types.IsFloat != 0
+}
 func isString(t types.Type) bool {
 	b, ok := t.Underlying().(*types.Basic)
 	return ok && b.Info()&types.IsString != 0
@@ -278,11 +281,16 @@ func floatLit(f float64, bits int) string {
 const Ref = "Int"
 
 func typeKey(t types.Type) string {
-	return types.TypeString(t, func(p *types.Package) string { return p.Path() })
+	return canonAny(types.TypeString(t, func(p *types.Package) string { return p.Path() }))
+}
+
+// canonAny: `any` and `interface{}` are one type; one spelling, so that they share heap components.
+func canonAny(s string) string {
+	return strings.ReplaceAll(strings.ReplaceAll(s, "interface {}", "any"), "interface{}", "any")
 }
 
 func shortType(t types.Type) string {
-	s := types.TypeString(t, func(p *types.Package) string { return p.Name() })
+	s := canonAny(types.TypeString(t, func(p *types.Package) string { return p.Name() }))
 	r := strings.NewReplacer(" ", "", "*", "P.", "[]", "S.", "[", "A", "]", ".", "{", "(", "}", ")", ";", ",", "\"", "'")
 	return r.Replace(s)
 }
